@@ -1,7 +1,259 @@
 import Rare.Model.Expr.Build
+/-!
+`funcsStrings.go` (len, like, prefix, suffix, upper, lower, substr, select, hi, bytesize,
+bytesizesi, downscale, the `kfJoin` family `tab` / `$` / `@`), `funcsCsv.go`, and
+`pkg/humanize` (`humanizeInt`, `unitize`).
+-/
 namespace Rare.Expr.Funcs.Strings
 open Rare.Expr
 
-def table : Table := []
+/-! ### len / like / prefix / suffix / upper / lower -/
+
+def kfLen : Builder := fun args =>
+  match args with
+  | [a] => ok (do let v ← a; pure (itoa v.length))
+  | _ => errArgCount
+
+/-- `strings.Contains(s, sub)` on bytes. -/
+def containsB (s sub : Bytes) : Bool :=
+  match s with
+  | [] => sub.isEmpty
+  | _ :: r => sub.isPrefixOf s || containsB r sub
+
+/-- `{like}`, `{prefix}`, `{suffix}`: both arguments evaluated, the first returned when `test` holds. -/
+def testHelper (test : Bytes → Bytes → Bool) : Builder := fun args =>
+  match args with
+  | [a0, a1] => ok (do
+    let val ← a0
+    let c ← a1
+    pure (if test val c then val else FalsyVal))
+  | _ => errArgCount
+
+def upperB (b : UInt8) : UInt8 := if 97 ≤ b && b ≤ 122 then b - 32 else b
+def lowerB (b : UInt8) : UInt8 := if 65 ≤ b && b ≤ 90 then b + 32 else b
+
+/-- `strings.ToUpper` / `ToLower`: exact on ASCII input; anything else is the Unicode tables. -/
+def caseHelper (f : UInt8 → UInt8) : Builder := fun args =>
+  match args with
+  | [a] => ok (do
+    let v ← a
+    if v.all (· < 128) then pure (v.map f) else .panic "unmodelled:non-ascii-case")
+  | _ => errArgCount
+
+/-! ### substr -/
+
+/-- Index arithmetic of `kfSubstr` (after the fix that compares `length < lenS-left`). -/
+def substrIdx (lenS left length : Int) : Int × Int :=
+  let length := if length < 0 then 0 else length
+  let left :=
+    if left < 0 then
+      let l := wrap64 (left + lenS)
+      if l < 0 then 0 else l
+    else if left > lenS then lenS else left
+  let right := if length < wrap64 (lenS - left) then wrap64 (left + length) else lenS
+  (left, right)
+
+/-- Go's `s[l:r]`; `.error` = "slice bounds out of range". -/
+def goSlice (s : Bytes) (l r : Int) : Except String Bytes :=
+  if 0 ≤ l ∧ l ≤ r ∧ r ≤ s.length then .ok ((s.drop l.toNat).take (r.toNat - l.toNat))
+  else .error "slice bounds out of range"
+
+def substrVal (s : Bytes) (left length : Int) : Except String Bytes :=
+  let (l, r) := substrIdx s.length left length
+  goSlice s l r
+
+def liftExcept : Except String Bytes → Stage
+  | .ok v => .ret v
+  | .error m => .panic m
+
+def kfSubstr : Builder := fun args =>
+  match args with
+  | [a0, a1, a2] => ok (do
+    let s ← a0
+    if s.isEmpty then pure [] else
+    let ls ← a1
+    let ns ← a2
+    match atoi ls, atoi ns with
+    | some left, some length => liftExcept (substrVal s left length)
+    | _, _ => pure ErrorNum)
+  | _ => errArgCount
+
+/-! ### select -/
+
+structure SelSt where
+  currIdx : Int := 0
+  wordStart : Nat := 0
+  inDelim : Bool := false
+  quoted : Bool := false
+
+def isSelDelim (c : UInt8) : Bool := c == 32 || c == 9 || c == 10 || c == 0
+
+/-- The loop of `selectField`.  Go ranges over runes, the model over bytes: every byte the loop
+    tests for is ASCII, an ASCII byte never occurs inside a multi-byte sequence, and for the
+    remaining bytes of a rune the body does nothing (`inDelim` is already false), so the
+    byte-wise loop computes the same `wordStart`/`currIdx`. -/
+def selLoop (s : Bytes) (idx : Int) : Bytes → Nat → SelSt → Bytes
+  | [], _, st => if st.currIdx = idx then s.drop st.wordStart else []
+  | c :: rest, i, st =>
+    if (st.quoted && c == 34) || (!st.quoted && isSelDelim c) then
+      if st.currIdx = idx then (s.drop st.wordStart).take (i - st.wordStart)
+      else selLoop s idx rest (i + 1) { st with inDelim := true, quoted := false }
+    else if c == 34 then selLoop s idx rest (i + 1) { st with quoted := !st.quoted }
+    else if st.inDelim then
+      selLoop s idx rest (i + 1) { st with wordStart := i, currIdx := st.currIdx + 1, inDelim := false }
+    else selLoop s idx rest (i + 1) st
+
+def selectField (s : Bytes) (idx : Int) : Bytes := selLoop s idx s 0 {}
+
+def kfSelect : Builder := fun args =>
+  match args with
+  | [a0, a1] => ok (do
+    let s ← a0
+    let i ← a1
+    match atoi i with
+    | none => pure ErrorNum
+    | some idx => pure (selectField s idx))
+  | _ => errArgCount
+
+/-! ### join family: tab, `$`, `@` -/
+
+def joinRun (delim : Bytes) : List Stage → Stage
+  | [] => .ret []
+  | a :: rest => do
+    let v ← a
+    let r ← joinRun delim rest
+    pure (delim ++ v ++ r)
+
+def kfJoin (delim : Bytes) : Builder := fun args =>
+  match args with
+  | [] => ok (Stage.lit [])
+  | [a] => ok a
+  | a :: rest => ok (do
+    let v ← a
+    let r ← joinRun delim rest
+    pure (v ++ r))
+
+/-! ### csv -/
+
+def replaceQuotes : Bytes → Bytes
+  | [] => []
+  | 34 :: r => 34 :: 34 :: replaceQuotes r
+  | c :: r => c :: replaceQuotes r
+
+/-- `csvItemEncode` -/
+def csvItemEncode (s : Bytes) : Bytes :=
+  if s.any (fun c => c == 34 || c == 13 || c == 10) then [34] ++ replaceQuotes s ++ [34]
+  else if s.contains 44 then [34] ++ s ++ [34]
+  else s
+
+/-- The joined record for already evaluated arguments. -/
+def csvRecord : List Bytes → Bytes
+  | [] => []
+  | [x] => csvItemEncode x
+  | x :: rest => csvItemEncode x ++ [44] ++ csvRecord rest
+
+def csvRun : List Stage → List Bytes → Stage
+  | [], acc => .ret (csvRecord acc)
+  | a :: rest, acc => do
+    let v ← a
+    csvRun rest (acc ++ [v])
+
+def kfCsv : Builder := fun args =>
+  match args with
+  | [] => ok (Stage.lit [])
+  | _ => ok (csvRun args [])
+
+/-! ### hi (`humanize.Hi32` → `humanizeInt`) -/
+
+/-- The digit loop of `humanizeInt`, writing right to left (`acc` is `buf[idx+1:]`).
+    An int64 has at most 19 digits, so 20 rounds of fuel always reach `v == 0`. -/
+def hiLoop : Nat → Int → Nat → Bytes → Bytes
+  | 0, _, _, acc => acc
+  | f + 1, v, ci, acc =>
+    if v = 0 then acc
+    else
+      let acc := if ci = 3 then 44 :: acc else acc
+      let ci := if ci = 3 then 0 else ci
+      let d := goMod v 10
+      let d := if d < 0 then -d else d
+      hiLoop f (goDiv v 10) (ci + 1) (UInt8.ofNat (48 + d.toNat) :: acc)
+
+def humanizeInt (v : Int) : Bytes :=
+  if 0 ≤ v ∧ v < 100 then itoa v
+  else
+    let body := hiLoop 20 v 0 []
+    if v < 0 then 45 :: body else body
+
+def kfHumanizeInt : Builder := fun args =>
+  match args with
+  | [a] => ok (do
+    let v ← a
+    match atoi v with
+    | none => pure ErrorNum
+    | some n => pure (humanizeInt n))
+  | _ => errArgCount
+
+/-! ### bytesize / bytesizesi / downscale (`unitize`) -/
+
+def iecSizes : List String := ["B", "KB", "MB", "GB", "TB", "PB", "EB", "ZB"]
+def siSizes : List String := ["b", "kB", "mB", "gB", "tB", "pB", "eB", "zB"]
+def unitSize : List String := ["", "k", "M", "B", "T"]
+
+def withUnit (num : Bytes) (delim : Bytes) (unit : String) : Bytes :=
+  if unit.isEmpty then num else num ++ delim ++ ascii unit
+
+/-- Divide an *exact* multiple down, the way the float loop does when no rounding can occur. -/
+def exactRank : Nat → Int → Int → Nat → Nat → Option (Int × Nat)
+  | 0, _, _, _, _ => none
+  | f + 1, n, step, rank, maxRank =>
+    if (n ≤ -step || n ≥ step) && rank < maxRank then
+      if Int.tmod n step = 0 then exactRank f (Int.tdiv n step) step (rank + 1) maxRank else none
+    else some (n, rank)
+
+/-- `strconv.AppendFloat(buf, m, 'f', precision, 64)` for an integral `m`. -/
+def fmtIntegral (m : Int) (precision : Int) : Bytes :=
+  if precision ≤ 0 then itoa m else itoa m ++ [46] ++ List.replicate precision.toNat 48
+
+/-- `unitize(n, step, precision, delim, units)`; `none` = needs float rounding. -/
+def unitize (n step : Int) (precision : Int) (delim : Bytes) (units : List String) : Option Bytes :=
+  if n > -step ∧ n < step then some (withUnit (itoa n) delim (units.headD ""))
+  else if n.natAbs ≥ 9007199254740992 then none      -- float64(n) may round
+  else
+    match exactRank 10 n step 0 (units.length - 1) with
+    | none => none
+    | some (m, rank) =>
+      if precision > 1000 then none
+      else some (withUnit (fmtIntegral m precision) delim (units.getD rank ""))
+
+def unitHelper (unsigned : Bool) (step : Int) (delim : Bytes) (units : List String) : Builder := fun args =>
+  if args.length < 1 || args.length > 2 then errArgCount
+  else match evalArgInt args 1 0 with
+    | .error m => .error m
+    | .ok none => errNum
+    | .ok (some precision) =>
+      match args with
+      | a :: _ => ok (do
+        let v ← a
+        let parsed : Option Int := if unsigned then (atou v).map (fun n => wrap64 (Int.ofNat n)) else atoi v
+        match parsed with
+        | none => pure ErrorNum
+        | some n =>
+          match unitize n step precision delim units with
+          | some r => pure r
+          | none => .panic "unmodelled:unitize-float")
+      | [] => errArgCount
+
+def table : Table := [
+  ("len", kfLen),
+  ("like", testHelper fun v c => containsB v c),
+  ("prefix", testHelper fun v c => c.isPrefixOf v),
+  ("suffix", testHelper fun v c => c.isSuffixOf v),
+  ("upper", caseHelper upperB), ("lower", caseHelper lowerB),
+  ("substr", kfSubstr), ("select", kfSelect),
+  ("tab", kfJoin [9]), ("$", kfJoin [0]), ("@", kfJoin [0]),
+  ("csv", kfCsv), ("hi", kfHumanizeInt),
+  ("bytesize", unitHelper true 1024 [32] iecSizes),
+  ("bytesizesi", unitHelper true 1000 [32] siSizes),
+  ("downscale", unitHelper false 1000 [] unitSize)]
 
 end Rare.Expr.Funcs.Strings
